@@ -422,6 +422,10 @@ def writer_oracle(c, o, s):
     if ' RT:' not in o:
         v.failures.append('unexpected writer observation ' + o[:80])
         return v
+    if ' SW:' in o:
+        o, sw = o.split(' SW:', 1)
+        v.failures.append('a writer that accepts 1-3 bytes per call (and has no write_vectored) received %r instead' % (bytes.fromhex(sw) if sw != '-' else b'')[:80])
+        return v
     outhex, rt = o.split(' RT:', 1)
     out = b'' if outhex == '-' else bytes.fromhex(outhex)
     recs = _fields_rt(rt)
@@ -1152,3 +1156,41 @@ def fused_oracle(c, o, s):
 def parse_case_line(c):
     from .obs import parse_case
     return parse_case(c)
+
+
+def refwrite_oracle(case, toks):
+    """C10 / C11: `RefRecord::write` and (FASTA) `write_wrap(.., 3)` of every record a reader returns, written into
+    a writer that accepts 2-3 bytes per call, are what the writers' documentation prescribes for the record's own
+    head / sequence / quality - judged on the implementation's output alone."""
+    v = Verdict()
+    fmt = case['fmt']
+    for idx, tok in enumerate(toks):
+        t = strip_growth(tok)
+        recs = []
+        if t.startswith('R:'):
+            recs = [parse_fields(t[2:])]
+        elif t.startswith('I:') and t[2:]:
+            recs = [parse_fields(x) for x in t[2:].split('/')]
+        for f in recs:
+            if 'w' not in f:
+                continue
+            v.nontrivial = True
+            h = bytes.fromhex(f.get('h', ''))
+            w = bytes.fromhex(f['w'])
+            if fmt == 'fa':
+                sq = bytes.fromhex(f.get('o', ''))
+                want = b'>' + h + b'\n' + sq + b'\n'
+                if w != want:
+                    v.failures.append('op %d: RefRecord::write gave %r, expected %r' % (idx, w[:80], want[:80]))
+                    return v
+                x = bytes.fromhex(f.get('x', ''))
+                wantx = b'>' + h + b'\n' + b'\n'.join(sq[i:i + 3] for i in range(0, len(sq), 3)) + b'\n'
+                if x != wantx:
+                    v.failures.append('op %d: RefRecord::write_wrap(3) gave %r, expected %r' % (idx, x[:80], wantx[:80]))
+                    return v
+            else:
+                want = b'@' + h + b'\n' + bytes.fromhex(f.get('s', '')) + b'\n+\n' + bytes.fromhex(f.get('q', '')) + b'\n'
+                if w != want:
+                    v.failures.append('op %d: RefRecord::write gave %r, expected %r' % (idx, w[:80], want[:80]))
+                    return v
+    return v
